@@ -20,7 +20,7 @@ Property clause → theorem
       `C20.export_helpers_copy_ids_faithfully`  every id field of a record an export / import helper constructs field by field is fed
                                   from the same-named id of the same object (`PoolId` from `pool.Id`, never `.PairId` / `.AppId`);
                                   `C20.export_helpers_copy_fields_by_name` the same for every selected field; pinned by `copies_pinned`
-                                  (42 copies: liquidity 22, collector 17, auction 3; 15 of them id fields) — no exception on the current tree
+                                  (68 copies: lend migration 26, liquidity 22, collector 17, auction 3; 19 of them id fields) — no exception on the current tree
       `C20.counters_exact_full`   every id counter / length key is restored from a stored genesis value
       `C20.fields_used_full`      every genesis field ExportGenesis fills is looked at by InitGenesis
       These are FALSE of the unchanged tree; each is stated at full strength over the table minus the explicit lists
@@ -370,8 +370,8 @@ theorem export_helpers_copy_fields_by_name : nameCopyGaps modules = [] := by dec
 
 /-- the field copies found (liquidity: the per-app genesis state and the farmer records rebuilt by
 `GetActiveAndQueuedFarmersForGenesis`; collector and auction: the records the genesis setters rebuild) -/
-theorem copies_pinned : (modules.map fun m => m.copies.length) = [0, 0, 0, 17, 0, 0, 3, 0, 0, 22, 0, 0, 0, 0, 0] ∧
-    (modules.map fun m => (m.copies.filter copyIdLike).length) = [0, 0, 0, 6, 0, 0, 2, 0, 0, 7, 0, 0, 0, 0, 0] ∧
+theorem copies_pinned : (modules.map fun m => m.copies.length) = [0, 0, 26, 17, 0, 0, 3, 0, 0, 22, 0, 0, 0, 0, 0] ∧
+    (modules.map fun m => (m.copies.filter copyIdLike).length) = [0, 0, 4, 6, 0, 0, 2, 0, 0, 7, 0, 0, 0, 0, 0] ∧
     (∃ m ∈ modules, m.name = "liquidity" ∧
       (⟨"export", "GetActiveAndQueuedFarmersForGenesis", "QueuedFarmer", "PoolId", ["pool", "id"], "sel", ["pool"], ["pool"], ["id"], "pool.Id"⟩ : Copy) ∈ m.copies ∧
       (⟨"export", "GetActiveAndQueuedFarmersForGenesis", "ActiveFarmer", "PoolId", ["pool", "id"], "sel", ["pool"], ["pool"], ["id"], "pool.Id"⟩ : Copy) ∈ m.copies ∧
